@@ -572,6 +572,63 @@ fn families(thorough: bool) -> Vec<Prog> {
             });
         }
     }
+    // ---- 10. nothing a callee declares is visible to its caller: user code driven by every
+    //          construct that calls it (for, @, ?, $, $], partition, manual pulls, a call) declares
+    //          locals spelled like run-time names of the caller, which the caller uses while
+    //          (loop bodies, callbacks) and after the construct runs
+    for n in &names {
+        let it = format!("mk := () -> () -> (bool, int) {{ i := mut 0; return () -> (bool, int) {{ {n} := 3; i += 1; if *i <= 2 {{ return (true, {n}) }}; return (false, 0) }} }}");
+        let drivers: Vec<(&str, String, &str)> = vec![
+            ("for over a user iterator", format!("acc := mut 0; for e in mk() {{ acc += {n} }}; (*acc, {n})"), "(600, 300)"),
+            ("for with an inner binder", format!("acc := mut 0; for e in mk() {{ if q: int = e {{ acc += {n} }} }}; (*acc, {n})"), "(600, 300)"),
+            ("nested for", format!("acc := mut 0; for e in mk() {{ for d in mk() {{ acc += {n} }} }}; (*acc, {n})"), "(1200, 300)"),
+            ("map over a user iterator", format!("r := mk() @ (e: int) -> int {{ return e + {n} }} $]; (r, {n})"), "([303, 303], 300)"),
+            ("filter over a user iterator", format!("r := mk() ? (e: int) -> bool {{ return {n} == 300 }} $]; (r, {n})"), "([3, 3], 300)"),
+            ("reduce over a user iterator", format!("r := mk() $ 0 (a: int, e: int) -> int {{ return a + {n} }}; (r, {n})"), "(600, 300)"),
+            ("collect", format!("r := mk() $]; (r, {n})"), "([3, 3], 300)"),
+            ("sum", format!("r := mk() $+; (r, {n})"), "(6, 300)"),
+            ("partition", format!("r := mk() \\ (e: int) -> bool {{ return {n} == 300 }}; (r, {n})"), "(([3, 3], []), 300)"),
+            ("manual pulls", format!("g := mk(); a := g(); b := g(); (a, b, {n})"), "((true, 3), (true, 3), 300)"),
+            ("while-set over pulls", format!("g := mk(); acc := mut 0; while p: (bool, int) = g() {{ if !p.0 {{ break }}; acc += {n} }}; (*acc, {n})"), "(600, 300)"),
+            ("callback declaring the name", format!("r := [1, 2]~ @ (e: int) -> int {{ {n} := 5; return e + {n} }} $]; (r, {n})"), "([6, 7], 300)"),
+        ];
+        for (dname, text, want) in drivers {
+            out.push(Prog {
+                family: format!("callee locals invisible to the caller: {dname}"),
+                stmts: pre(vec![format!("{n} := std.len([0]) * 300"), it.clone(), text.clone()]),
+                expected: Some(want.to_string()),
+                names: with_names(&{
+                    let mut v: Vec<&str> = vec![n, "mk"];
+                    for d in ["acc", "r", "g", "a", "b"] {
+                        if text.contains(&format!("{d} :=")) && !v.contains(&d) {
+                            v.push(d);
+                        }
+                    }
+                    v
+                }),
+            });
+            // the same with the caller a function and the name its parameter
+            out.push(Prog {
+                family: format!("callee locals invisible to the caller (parameter): {dname}"),
+                stmts: pre(vec![it.clone(), {
+                    let (head, last) = text.rsplit_once("; (").expect("driver text ends with a tuple");
+                    format!("cf := ({n}: int) -> any {{ {head}; return ({last} }}")
+                }, "cf(300)".into()]),
+                expected: Some(want.to_string()),
+                names: with_names(&["mk", "cf"]),
+            });
+        }
+        // a named iterator that calls itself, consumed where its name is not in scope
+        out.push(Prog {
+            family: "self-referencing iterator driven outside its scope".into(),
+            stmts: pre(vec![
+                format!("mk2 := () -> () -> (bool, int) {{ c := mut 0; {n}it := () -> (bool, int) {{ c += 1; if *c % 2 == 1 {{ return {n}it() }}; return (*c < 6, *c) }}; return {n}it }}"),
+                "a1 := mut [any] []; for e in mk2() { a1 += [e] }; (*a1, mk2() $], mk2() @ (e: int) -> int { return e } $])".into(),
+            ]),
+            expected: Some("([2, 4], [2, 4], [2, 4])".into()),
+            names: with_names(&["mk2", "a1"]),
+        });
+    }
     out
 }
 
